@@ -38,6 +38,49 @@ func (m *Machine) protoTypeGlobal(name string) *Value {
 }
 
 func init() {
+	// larking.getExtensionHTTP(desc.Options()): answered from the harness's fakeOpts (stub contract:
+	// proto.GetExtension(E_Http) returns the rule the fake descriptor carries).
+	reg("larking.io/larking.getExtensionHTTP", func(m *Machine, fn *ssa.Function, args []Value) Value {
+		i, _ := args[0].(Iface)
+		res := fn.Signature.Results().At(0).Type()
+		if i.T == nil {
+			return m.zero(res)
+		}
+		if p, ok := i.V.(*Value); ok && p != nil {
+			if st, ok := (*p).(Struct); ok && len(st) == 1 {
+				return st[0]
+			}
+		}
+		m.unsupported("getExtensionHTTP on " + i.T.String())
+		return nil
+	})
+	// proto.Clone: field-wise copy of the pointed-to struct (used for google.rpc.Status).
+	reg("google.golang.org/protobuf/proto.Clone", func(m *Machine, fn *ssa.Function, args []Value) Value {
+		i, _ := args[0].(Iface)
+		if i.T == nil {
+			return i
+		}
+		p, ok := i.V.(*Value)
+		if !ok {
+			m.unsupported("proto.Clone on " + i.T.String())
+		}
+		if p == nil {
+			return i
+		}
+		cell := new(Value)
+		*cell = copyVal(*p)
+		return Iface{T: i.T, V: cell}
+	})
+	reg("math/rand.Intn", func(m *Machine, fn *ssa.Function, args []Value) Value {
+		n := m.ConcInt(args[0])
+		if n <= 0 {
+			panic(targetPanic{msg: "invalid argument to Intn", stack: m.stackString()})
+		}
+		return m.i64(m.Choose(n))
+	})
+}
+
+func init() {
 	P := protoreflectPkg
 	reg(P+".typeOf", func(m *Machine, fn *ssa.Function, args []Value) Value {
 		i := args[0].(Iface)
